@@ -556,6 +556,16 @@ func isMinReductionOver(v ssa.Value, loc string, seen map[ssa.Value]bool) bool {
 				}
 			}
 		}
+		// a helper of the module that returns the reduction
+		if c := x.Call.StaticCallee(); c != nil && inModule(c) && len(c.Blocks) > 0 && c.Signature.Results().Len() == 1 {
+			found := false
+			eachInstr(c, func(in ssa.Instruction) {
+				if ret, ok := in.(*ssa.Return); ok && len(ret.Results) == 1 && isMinReductionOver(ret.Results[0], loc, seen) {
+					found = true
+				}
+			})
+			return found
+		}
 	}
 	return false
 }
@@ -663,6 +673,32 @@ func runOrd4(m *Model, r *RuleResult) {
 		}
 		seen[f] = true
 		ok, why := true, ""
+		// a modification inside f is harmless when f itself runs a normaliser afterwards on every path
+		var fNorm []ssa.CallInstruction
+		eachInstr(f, func(in ssa.Instruction) {
+			if ci, isCI := in.(ssa.CallInstruction); isCI {
+				for _, cal := range m.Callees(ci) {
+					if norm[cal] {
+						fNorm = append(fNorm, ci)
+					}
+				}
+			}
+		})
+		renormalised := func(in ssa.Instruction) bool {
+			if len(fNorm) == 0 || len(f.Blocks) == 0 {
+				return false
+			}
+			cfg := getCFG(f)
+			for _, nc := range fNorm {
+				if nc.Block() == in.Block() && instrIndex(nc) > instrIndex(in) {
+					return true
+				}
+				if nc.Block() != in.Block() && cfg.postDominates(nc.Block(), in.Block()) {
+					return true
+				}
+			}
+			return false
+		}
 		eachInstr(f, func(in ssa.Instruction) {
 			if !ok {
 				return
@@ -672,7 +708,7 @@ func runOrd4(m *Model, r *RuleResult) {
 				if fa, isFA := x.Addr.(*ssa.FieldAddr); isFA {
 					_, steps := fieldChain(fa)
 					if locOfSteps(steps) == igNode+".Layer" && !isFreshObject(fa.X, 0) {
-						if !nonNegative(x.Val, map[ssa.Value]bool{}, 0) {
+						if !nonNegative(x.Val, map[ssa.Value]bool{}, 0) && !renormalised(in) {
 							ok, why = false, fmt.Sprintf("%s stores %s into Node.Layer at %s", funcKey(f), x.Val.String(), m.Pos(x.Pos()))
 						}
 					}
@@ -681,7 +717,7 @@ func runOrd4(m *Model, r *RuleResult) {
 				for _, cal := range m.Callees(x) {
 					ce := m.effects[cal]
 					if ce != nil && ce.Mod[igNode+".Layer"] && !norm[cal] {
-						if o, w := layerWritesOK(cal, seen); !o {
+						if o, w := layerWritesOK(cal, seen); !o && !renormalised(in) {
 							ok, why = false, w
 						}
 					}
@@ -866,6 +902,84 @@ func ord4BalancerInput(m *Model, r *RuleResult, norm map[*ssa.Function]bool) {
 					}
 				})
 				if clean {
+					ok = true
+				}
+			}
+			if !ok && !ctl {
+				// the balancing call sits in a dispatch helper: nothing modifies Layer between the helper's entry and the call,
+				// and every call of the helper is preceded by a normaliser call with nothing in between
+				cleanPrefix := true
+				eachInstr(f, func(in ssa.Instruction) {
+					if in == ssa.Instruction(bc) || !instrReaches(in, bc) {
+						return
+					}
+					switch x := in.(type) {
+					case *ssa.Store:
+						if fa, isFA := x.Addr.(*ssa.FieldAddr); isFA {
+							_, steps := fieldChain(fa)
+							if locOfSteps(steps) == igNode+".Layer" {
+								cleanPrefix = false
+							}
+						}
+					case ssa.CallInstruction:
+						for _, cal := range m.Callees(x) {
+							if e := m.effects[cal]; e != nil && e.Mod[igNode+".Layer"] {
+								cleanPrefix = false
+							}
+						}
+					}
+				})
+				nSites, allOK := 0, true
+				for _, g := range m.Src {
+					var gNorm []ssa.CallInstruction
+					eachInstr(g, func(in ssa.Instruction) {
+						if ci, isCI := in.(ssa.CallInstruction); isCI {
+							for _, cal := range m.Callees(ci) {
+								if norm[cal] {
+									gNorm = append(gNorm, ci)
+								}
+							}
+						}
+					})
+					for _, site := range staticCalls(g, func(c *ssa.Function) bool { return c == f }) {
+						nSites++
+						siteOK := false
+						for _, nc := range gNorm {
+							if !instrDominates(nc, site) {
+								continue
+							}
+							clean := true
+							eachInstr(g, func(in ssa.Instruction) {
+								if in == ssa.Instruction(nc) || in == ssa.Instruction(site) || !instrReaches(nc, in) || !instrReaches(in, site) {
+									return
+								}
+								switch x := in.(type) {
+								case *ssa.Store:
+									if fa, isFA := x.Addr.(*ssa.FieldAddr); isFA {
+										_, steps := fieldChain(fa)
+										if locOfSteps(steps) == igNode+".Layer" {
+											clean = false
+										}
+									}
+								case ssa.CallInstruction:
+									for _, cal := range m.Callees(x) {
+										if e := m.effects[cal]; e != nil && e.Mod[igNode+".Layer"] && !norm[cal] {
+											clean = false
+										}
+									}
+								}
+							})
+							if clean {
+								siteOK = true
+							}
+						}
+						if !siteOK {
+							allOK = false
+							why = "the helper " + funcKey(f) + " is called at " + m.Pos(site.Pos()) + " without a normaliser call right before it"
+						}
+					}
+				}
+				if cleanPrefix && nSites > 0 && allOK {
 					ok = true
 				}
 			}
